@@ -3,6 +3,8 @@
 use crate::ctx::{Check, Ctx};
 
 pub mod c01;
+pub mod c03;
+pub mod c05;
 pub mod scripted;
 
 pub struct Spec {
@@ -40,12 +42,14 @@ pub const E1_STUB: &[&str] = &[
 ];
 
 pub fn all() -> Vec<&'static str> {
-  vec!["C01"]
+  vec!["C01", "C03", "C05"]
 }
 
 pub fn spec(id: &str) -> Option<Spec> {
   match id {
     "C01" => Some(c01::spec()),
+    "C03" => Some(c03::spec()),
+    "C05" => Some(c05::spec()),
     _ => None,
   }
 }
@@ -53,6 +57,8 @@ pub fn spec(id: &str) -> Option<Spec> {
 pub fn run(id: &str, tier: &str, ctx: &mut Ctx) -> Check {
   match id {
     "C01" => c01::run(tier, ctx),
+    "C03" => c03::run(tier, ctx),
+    "C05" => c05::run(tier, ctx),
     _ => panic!("unknown property {id}"),
   }
 }
